@@ -20,6 +20,10 @@ ALT = REPO != "/repo"
 if ALT:
     # scratch trees (mutation validation) get their own build + evidence area
     WORK = os.path.join(VERIF, ".work", "alt-" + hashlib.sha256(REPO.encode()).hexdigest()[:10])
+COV = bool(os.environ.get("VF_COV")) and not ALT
+if COV:
+    # reach evidence: the same workloads against builds that additionally carry gcov counters (tools/coverage.py)
+    WORK = os.path.join(VERIF, ".work", "cov")
 BUILD_ROOT = os.path.join(WORK, "build")
 SHIM_DIR = os.path.join(VERIF, "shim")
 
@@ -29,6 +33,14 @@ SAN_GATE = ("-O1 -g -fno-omit-frame-pointer -fsanitize=address,undefined "
             "-fno-sanitize-recover=undefined -D%s" % GUARD)
 SAN_RECOVER = ("-O1 -g -fno-omit-frame-pointer -fsanitize=address,undefined "
                "-fsanitize-recover=address,undefined -D%s" % GUARD)
+if COV:
+    SAN_GATE += " --coverage -fprofile-update=atomic"
+XFLAGS = os.environ.get("VF_XFLAGS", "")
+if XFLAGS and not (ALT or COV):
+    # experiments with additional instrumentation flags get their own build + evidence area
+    WORK = os.path.join(VERIF, ".work", "x-" + hashlib.sha256(XFLAGS.encode()).hexdigest()[:8])
+    BUILD_ROOT = os.path.join(WORK, "build")
+    SAN_GATE += " " + XFLAGS
 TSAN = "-O1 -g -fno-omit-frame-pointer -fsanitize=thread -D%s" % GUARD
 TRACE = ("-O2 -funroll-loops -fomit-frame-pointer -finstrument-functions "
          "-fsanitize-coverage=trace-pc -D%s" % GUARD)
@@ -170,6 +182,9 @@ def ensure(cfg, quiet=True):
         # build directory (libraries already mapped) are not disturbed by a rebuild
         final = d
         d = final + ".new"
+        if COV:
+            d = final          # gcov data files are written to the compile-time object paths: build in place
+            shutil.rmtree(final + ".new", ignore_errors=True)
         shutil.rmtree(d, ignore_errors=True)
         os.makedirs(d)
         log = os.path.join(d, "vf_build.log")
@@ -192,9 +207,10 @@ def ensure(cfg, quiet=True):
             fh.write(want)
         _ensure_extras(cfg, d)
         old = final + ".old-%d" % os.getpid()
-        if os.path.exists(final):
+        if os.path.exists(final) and d != final:
             os.rename(final, old)
-        os.rename(d, final)
+        if d != final:
+            os.rename(d, final)
         shutil.rmtree(old, ignore_errors=True)
         d = final
         if not quiet:
